@@ -225,6 +225,19 @@ pub fn check_c16(h: &Hist) -> POut {
         for e in es {
             let k = e.val.key;
             if !separated.get(&k).copied().unwrap_or(false) {
+                // writes of this key overlapped: value order and cost order may differ (the value
+                // is swapped on the caller's thread, the cost travels through the buffer), but the
+                // charge is still the charge of SOME accepted write of the key
+                if let Some((_, c)) = pol.iter().find(|(x, _)| *x == e.index) {
+                    let candidates: Vec<i64> = per_key.get(&k).map(|ws| ws.iter().filter(|o| o.inv_seq < cp.seq && (o.ok_true() || !o.returned())).filter_map(|o| expect_of(o)).collect()).unwrap_or_default();
+                    if !candidates.is_empty() {
+                        out.nontrivial = true;
+                        probe(&mut out, "charge_checked_against_overlapping_writes", 1);
+                        if !candidates.contains(c) {
+                            out.violations.push(violk("C16", "R-charge-matches-no-write", cp.seq, k, "charge of an entry equals cost (or Coster value) plus overhead of none of the accepted writes of its key", format!("key {}: charged {}, accepted writes would give {:?} (coster={}, ignore_internal_cost={}, item_size={})", k, c, candidates, cfg.coster, cfg.ignore_internal_cost, h.item_size)));
+                        }
+                    }
+                }
                 continue;
             }
             // the latest applied write: the last accepted insert of k before the checkpoint
